@@ -251,3 +251,138 @@ def h_count_reach(msg_type: int, sending: bool) -> bool:
     post: _
     """
     return reached(count(msg_type, sending))
+
+
+# ---- interval boundaries in the real run() loop (C18): one idle round under a controlled clock ----
+class _IdleSelect:
+    def __init__(self, mm, writable):
+        self.mm, self.writable, self.reads = mm, writable, 0
+
+    def select(self, r, w, x, t=None):
+        r, w = list(r), list(w)
+        if r:
+            self.reads += 1
+            if self.reads > 1:
+                self.mm._keep_running = False
+            return ([], [], [])
+        return ([], [c for c in w if W._contains(self.writable, c)], [])
+
+
+class _Clock:
+    def __init__(self, now):
+        self.now = now
+
+    def perf_counter(self):
+        return self.now
+
+    def time(self):
+        return self.now
+
+
+def boundary(t0, c0, t1, c1):
+    """one round of the real run() in which no connection is ready; the clock says which reporting intervals have ended.
+    shard: due = [timing due, traffic due]; listen = "none" | "traffic" | "timing" | "all" (what the monitor is subscribed to);
+           K = number of (type, count) pairs accumulated in both counters (0..2)
+    An interval that run() closes (its start time moves to now) must leave no count behind for the next one, whether or not
+    anybody listened; an interval it leaves open keeps its start time and its counts; what a listener is sent is the counters."""
+    due_timing, due_traffic = sh("due", [0, 1])
+    listen = sh("listen", "none")
+    K = sh("K", 1)
+    mm, mods = W.build(1)
+    L = mods[0]
+    L.connected = True
+    L.mod_id = 150
+    if listen == "traffic":
+        W.subscribe(mm, L, cd.MT_MESSAGE_TRAFFIC)
+    elif listen == "timing":
+        W.subscribe(mm, L, cd.MT_TIMING_MESSAGE)
+    elif listen == "all":
+        W.subscribe(mm, L, ALL)
+    mm.wlist = [L.conn]
+    pairs = [(t0, c0), (t1, c1)][:K]
+    for t, c in pairs:
+        mm.traffic_counter[t] += c
+        mm.message_counts[t] += c
+    now = 5000.0
+    mm.t_last_message_count = now - (10.0 if due_timing else 0.1)
+    mm.traffic_start = now - (10.0 if due_traffic else 0.1)
+    mm.last_client_info = now          # ACTIVE_CLIENTS stays quiet (it is C03's subject)
+    pre_traffic_start, pre_timing_start = mm.traffic_start, mm.t_last_message_count
+    old = (M.select, M.time)
+    M.select, M.time = _IdleSelect(mm, [L.conn]), _Clock(now)
+    try:
+        try:
+            mm.run()
+        except Exception as e:
+            return False, "run() raised %s: %s" % (type(e).__name__, e)
+    finally:
+        M.select, M.time = old
+    # --- traffic interval
+    if mm.traffic_start == pre_traffic_start:
+        if due_traffic:
+            return False, "the traffic interval ended but was not closed"
+        if len(mm.traffic_counter) != K:
+            return False, "counts of an open traffic interval were dropped"
+    else:
+        if not due_traffic:
+            return False, "a traffic interval was closed before its time"
+        if len(mm.traffic_counter) != 0:
+            return False, "a new traffic interval was started with the counts of the previous one still in the counter (listener: %s)" % listen
+    # --- timing interval
+    if mm.t_last_message_count == pre_timing_start:
+        if due_timing:
+            return False, "the timing interval ended but was not closed"
+        if len(mm.message_counts) != K:
+            return False, "counts of an open timing interval were dropped"
+    else:
+        if not due_timing:
+            return False, "a timing interval was closed before its time"
+        if len(mm.message_counts) != 0:
+            return False, "a new timing interval was started with the counts of the previous one still in the counter (listener: %s)" % listen
+    # --- what the listener was sent
+    frames = L.conn.frames()
+    tr = [p for hd, p in frames if hd["msg_type"] == cd.MT_MESSAGE_TRAFFIC]
+    ti = [p for hd, p in frames if hd["msg_type"] == cd.MT_TIMING_MESSAGE]
+    want_tr = due_traffic and listen in ("traffic", "all") and K > 0
+    want_ti = due_timing and listen in ("timing", "all")
+    if not want_tr and tr:
+        return False, "MESSAGE_TRAFFIC sent although %s" % ("no interval ended" if not due_traffic else "nothing was counted or nobody listens")
+    if want_tr:
+        entries = []
+        for p in tr:
+            mt, mc = W.pfield(p, "msg_type"), W.pfield(p, "msg_count")
+            for i in range(CH):
+                if mt[i] != -1:
+                    entries.append((mt[i], mc[i]))
+        if len(entries) != K:
+            return False, "the listener was sent %d traffic entries for %d types counted in the interval" % (len(entries), K)
+        for t, c in pairs:
+            if len([e for e in entries if e[0] == t and e[1] == c]) != 1:
+                return False, "a counted type is missing from (or wrong in) the interval's report"
+    if bool(ti) != bool(want_ti):
+        return False, "TIMING_MESSAGE %s" % ("missing at the end of its interval" if want_ti else "sent out of turn")
+    if want_ti and len(ti) != 1:
+        return False, "more than one TIMING_MESSAGE for one interval"
+    return True, ""
+
+
+def _pre_boundary(t0, c0, t1, c1):
+    return t0 != t1 and t0 != -1 and t1 != -1
+
+
+def h_boundary(t0: int, c0: int, t1: int, c1: int) -> bool:
+    """
+    pre: -2**31 <= t0 < 2**31 and -2**31 <= t1 < 2**31 and 1 <= c0 <= 65535 and 1 <= c1 <= 65535
+    pre: _pre_boundary(t0, c0, t1, c1)
+    post: _
+    """
+    return verdict(boundary(t0, c0, t1, c1))
+
+
+def h_boundary_reach(t0: int, c0: int, t1: int, c1: int) -> bool:
+    """
+    pre: -2**31 <= t0 < 2**31 and -2**31 <= t1 < 2**31 and 1 <= c0 <= 65535 and 1 <= c1 <= 65535
+    pre: _pre_boundary(t0, c0, t1, c1)
+    post: _
+    """
+    return reached(boundary(t0, c0, t1, c1))
